@@ -39,6 +39,8 @@ def families(tier):
             # chunked content model: the library's read(n) loop sees pieces, digests of prefixes are distinguished
             # one function declares the same file twice, under two comparison modes / through two spellings of the read API
             {'name': 'twice', 'params': {'builds': 2}},
+            # the comparison mode asked for changes from build to build: a change is judged by the mode the previous build recorded
+            {'name': 'integrity-switch', 'params': {'builds': 3}},
             {'name': 'input', 'params': {'builds': 2, 'chunked': True}},
             {'name': 'integrity', 'params': {'builds': 2, 'chunked': True}}]
     if tier == 'thorough':
@@ -73,7 +75,9 @@ def _meta(w, path):
 def harness(eng, fam, P):
     chunked = bool(P.get('chunked'))
     mode = 'HASH' if chunked or fam == 'twice' else MODES[eng.choose('mode', 2)]
-    nest = 'top' if chunked and not P.get('nests') else NESTS[eng.choose('nest', 3)]
+    # (integrity-switch: top level only - below a reused parent the call is not re-issued, so the recorded mode legitimately
+    # stays the older one)
+    nest = 'top' if (chunked and not P.get('nests')) or fam == 'integrity-switch' else NESTS[eng.choose('nest', 3)]
     rk = 'read_m' if mode == 'METADATA' else 'read_h'
     w = World(eng, [], fixed={'in': 'D', 'in/x': 'F', 'o': 'D'}, sandbox=getattr(eng, 'sandbox', None))
     w.distinct_mtimes = False
@@ -88,6 +92,12 @@ def harness(eng, fam, P):
             k2 = TWICE_KINDS[eng.choose('k2', len(TWICE_KINDS))]
             modes2 = sorted({KIND_MODE[k1], KIND_MODE[k2]})
             body = _wrap(nest, ('SB', 's', {}, [('Q', k1, 'in/x'), ('Q', k2, 'in/x')]))
+        elif fam == 'integrity-switch':
+            watch = w.p('o/f')
+            modes_seq = [MODES[eng.choose('m%d' % i_, 2)] for i_ in range(P['builds'])]
+            eng.path_info['modes'] = modes_seq
+            bodies_seq = [_wrap(nest, ('BF', 'o/f', {'mode': 'ok', 'cmp': m_, 'name': 'writer'}, [])) for m_ in modes_seq]
+            body = bodies_seq[0]
         elif fam == 'integrity':
             watch = w.p('o/f')
             body = _wrap(nest, ('BF', 'o/f', {'mode': 'ok', 'cmp': mode}, []))
@@ -96,13 +106,15 @@ def harness(eng, fam, P):
             watch = w.p('o/f')
             body = _wrap(nest, ('BF', 'o/f', {'mode': 'ok', 'cmp': wmode, 'copy': 'in/x'}, []),
                          [('SB', 's', {}, [('Q', rk, 'o/f')])])
-        prog = Program(eng, body)
+        shared = {}
+        prog = Program(eng, body, shared)
+        progs_seq = [Program(eng, b_, shared) for b_ in bodies_seq] if fam == 'integrity-switch' else None
         eng.path_info['program'] = show(body)
         eng.path_info['mode'] = mode
         # the function whose re-execution is observed
-        sid = [f[0] for f in prog.functions if (f[1] == 'SB' and f[2] == 's') or (fam == 'integrity' and f[2] == 'o/f')][0]
+        sid = [f[0] for f in prog.functions if (f[1] == 'SB' and f[2] == 's') or (fam.startswith('integrity') and f[2] == 'o/f')][0]
         d = Driver(eng, w)
-        impl, ref = d.build(prog)
+        impl, ref = d.build(progs_seq[0] if progs_seq else prog)
         eng.check('C13.first-build-ok', impl[0] == 'ok', (fam,), info={'impl': repr(impl[1])[:200]})
         for i in range(P['builds'] - 1):
             old = _meta(w, watch)
@@ -112,7 +124,10 @@ def harness(eng, fam, P):
             else:
                 w.ext_write(watch, eng.fresh_int('xcid'), fresh_mtime(eng, w, watch))
             new_before = _meta(w, watch)
-            impl, ref = d.build(prog)
+            if progs_seq:
+                # the mode that judges the change is the one the previous build asked for (and recorded)
+                mode = modes_seq[i]
+            impl, ref = d.build(progs_seq[i + 1] if progs_seq else prog)
             eng.check('C13.build-ok', impl[0] == 'ok', (fam,), info={'impl': repr(impl[1])[:200]})
             new = _meta(w, watch) if fam == 'readback' else new_before
             re = sid in d.impl_calls
@@ -120,6 +135,9 @@ def harness(eng, fam, P):
             if fam == 'twice':
                 # declared under both modes: a change visible to either of them counts
                 must = L.or_(*[changed(eng, m_, old, new) for m_ in modes2])
+            if progs_seq and impl[0] == 'ok':
+                # after this build the watched file is what the build left (rewritten or kept)
+                pass
             eng.check('C13.%s' % fam, must if re else L.not_(must), (fam, mode, nest, 'reexecuted' if re else 'reused'),
                       info={'program': show(body), 'mode': mode, 'reexecuted': re})
             eng.witness('reexecuted' if re else 'not-reexecuted')
